@@ -3,6 +3,8 @@
 package main
 
 import (
+	"go/types"
+	"strings"
 	"fmt"
 	"os"
 
@@ -25,6 +27,21 @@ func main() {
 				f.WriteTo(os.Stdout)
 				for _, af := range f.AnonFuncs {
 					af.WriteTo(os.Stdout)
+				}
+			}
+			// methods: "T.name"
+			if i := strings.Index(name, "."); i > 0 {
+				if tn, ok := p.Members[name[:i]].(*ssa.Type); ok {
+					for _, t := range []types.Type{tn.Type(), types.NewPointer(tn.Type())} {
+						ms := prog.MethodSets.MethodSet(t)
+						for j := 0; j < ms.Len(); j++ {
+							if ms.At(j).Obj().Name() == name[i+1:] {
+								if f := prog.MethodValue(ms.At(j)); f != nil {
+									f.WriteTo(os.Stdout)
+								}
+							}
+						}
+					}
 				}
 			}
 		}
